@@ -1,8 +1,9 @@
 (* C12 - total and terminating on the valid domain; outputs finite (PARTIAL:
-   the theorems below; absence of panics for n >= 2 and finiteness for the
-   arithmetic methods are not yet proved). *)
+   the theorems below; absence of panics for nnchain/generic with n >= 2 and
+   finiteness for the arithmetic methods are not theorems). *)
 Require Import KV.Model.Prelude KV.Model.Condensed KV.Model.Methods KV.Model.State KV.Model.Dendrogram
-  KV.Model.Linkage KV.Model.History KV.Proofs.Small KV.Proofs.ShapeCheck KV.Proofs.OrderOnly KV.Proofs.Shape.
+  KV.Model.Linkage KV.Model.History KV.Model.Mst KV.Model.Primitive KV.Proofs.Small KV.Proofs.ShapeCheck KV.Proofs.OrderOnly KV.Proofs.Shape
+  KV.Proofs.MstTotal KV.Proofs.PrimitiveTotal.
 
 (* n = 0 and n = 1: every entry point returns normally with the empty
    dendrogram, both profiles, any state *)
@@ -37,3 +38,23 @@ Theorem C12_result_shape : forall (T : Type) (F : fops T) (p : profile) (a : alg
   d_obs d' = obs_of_n n /\ length (d_steps d') = obs_of_n n - 1.
 Proof. exact run_shape. Qed.
 Print Assumptions C12_result_shape.
+
+(* mst and primitive are TOTAL on well-formed input: for any prior state, any
+   carrier, both profiles, the call returns a result or raises the documented
+   NaN panic - no index out of bounds, no failed unwrap, no overflow, no
+   capacity error, and the loops' fuel is never exhausted *)
+Theorem C12_mst_total : forall (T : Type) (K : kops T) (p : profile)
+  (s : lstate T) (d : dend T) (m : list T) (n : N),
+  (n < two32)%N -> wf_shape n (N.of_nat (length m)) ->
+  (exists r, mst_with K p s d m n = Ok r) \/ mst_with K p s d m n = Panic PNaN.
+Proof. exact mst_total. Qed.
+Print Assumptions C12_mst_total.
+
+Theorem C12_primitive_total : forall (T : Type) (K : kops T) (p : profile),
+  (forall a b c, k_ltb K a b = true -> k_ltb K b c = true -> k_ltb K a c = true) ->
+  (forall a, k_ltb K a a = false) ->
+  forall (meth : method) (s : lstate T) (d : dend T) (m : list T) (n : N),
+  (n < two32)%N -> wf_shape n (N.of_nat (length m)) ->
+  (exists r, primitive_with K p meth s d m n = Ok r) \/ primitive_with K p meth s d m n = Panic PNaN.
+Proof. exact primitive_total. Qed.
+Print Assumptions C12_primitive_total.
